@@ -100,13 +100,19 @@ def run_case(c):
             prob, _ = record.make_problem(s, cap=scn["iters"] + pre + 8, fault=(k, exc, persistent))
             if persistent:
                 obs["persistent_faults"] = obs.get("persistent_faults", 0) + 1
+            extra = ()
+            if rng.random() < 0.2:
+                # the shipped console listener is attached (it reports after the search stopped, also when a fault stopped it)
+                from iOpt.method.listener import ConsoleFullOutputListener
+                extra = (ConsoleFullOutputListener(mode=["full", "custom", "result"][int(rng.integers(3))]),)
+                obs["faulted_runs_with_a_console_listener"] = obs.get("faulted_runs_with_a_console_listener", 0) + 1
             try:
-                t = record.run_solver(s, listener=False, problem=prob)
+                t = record.run_solver(s, listener=False, problem=prob, extra_listeners=extra)
             except BaseException as e:
                 obs["faulted_runs"] = obs.get("faulted_runs", 0) + 1
                 if len(viol) < 6:
-                    viol.append({"mech": "solve-raised", "k": k, "exc": name, "escaped": type(e).__name__,
-                                 "msg": "the injected exception escaped Solve instead of being contained"})
+                    viol.append({"mech": "solve-raised", "k": k, "exc": name, "escaped": type(e).__name__, "console_listener": bool(extra),
+                                 "msg": "an exception escaped Solve instead of the best-so-far result being returned"})
                 continue
             obs["faulted_runs"] = obs.get("faulted_runs", 0) + 1
             if name in EXC:
